@@ -39,7 +39,7 @@ class MiniPCNSMC(SMCSampler):
     ):
         from orng import ArrayRNG
 
-        self.sampler_kwargs = sampler_kwargs or {}
+        self.sampler_kwargs = dict(sampler_kwargs or {})
         self.sampler_kwargs.setdefault("n_steps", 5 * self.dims)
         self.sampler_kwargs.setdefault("target_acceptance_rate", 0.234)
         self.sampler_kwargs.setdefault("step_fn", "tpcn")
